@@ -126,7 +126,7 @@ class Gen:
             k = r.random()
             if k < 0.2 and params:
                 out.append(r.choice(params))
-            elif k < 0.45 and self.macros and depth < 3:
+            elif k < 0.45 and self.macros and depth < 2:
                 out.append(self.use(depth + 1, params, names))
                 self.features.add("macro-in-argument")
             elif k < 0.55:
@@ -175,8 +175,18 @@ class Gen:
         r = self.rng
         usable = [m for m in self.macros if self.index.get(m, 10 ** 9) < idx]
         out = []
+        puses, calls = 0, 0
         for _ in range(r.randint(0, 6)):
             k = r.random()
+            # at most 3 parameter uses and 2 calls per body: nested calls multiply the size of the expansion
+            if k < 0.5 and params and puses >= 3:
+                k = 0.9
+            if 0.5 <= k < 0.67 and calls >= 2:
+                k = 0.9
+            if k < 0.5 and params:
+                puses += 2 if 0.4 <= k else 1
+            if 0.5 <= k < 0.67 and usable:
+                calls += 1
             if k < 0.3 and params:
                 out.append(r.choice(params))
             elif k < 0.4 and params:
